@@ -270,9 +270,11 @@ def menu(w, mon, ts, tick):
 
 def scenario(params, ch):
     ticks, order = params
+    swap = order.endswith("|swap")
+    order = order.split("|")[0]
     mon = LifecycleMonitor()
     ts = TokenSource()
-    w = World(n_clients=2, autoconnect=False, order=order, chooser=ch, monitors=[mon], token_source=ts,
+    w = World(n_clients=2, autoconnect=False, order=order, chooser=ch, monitors=[mon], token_source=ts, swap_handler=swap,
               server_cfg={"setConnectionTimeout": 0.5, "setTempConnectionTimeout": 0.25})
     try:
         def deviate(tick):
@@ -359,6 +361,10 @@ def scenario(params, ch):
                 explained = any(mon.state.get(s) == "disconnected" for s in sid)
                 if not explained:
                     ch.flag("events-keep-flowing", "a connected client's message never reached the handler although nothing disconnected it", "probe of %r" % (who,))
+        if w.decoy_log:
+            kinds = sorted(set(n for n, _ in w.decoy_log))
+            ch.flag("single-handler", "a handler that was replaced before the server was started still receives events (%s)" % ",".join(kinds),
+                    "ctxt.handler was set to the application's handler after the server object was built and before run(): the first handler got %d calls, first %r" % (len(w.decoy_log), w.decoy_log[:3]))
         ch.outcome = (tuple(n for n in names if n != "update"), tuple(sorted(mon.state.values())))
     finally:
         for v in mon.violations:
@@ -370,11 +376,11 @@ def run(tier, seed):
     rep = core.Report()
     if tier == "quick":
         ticks = (0, 1, 3, 6, 9, 13, 17, 20, 26, 31)
-        plist = [(ticks, "cs")]
+        plist = [(ticks, "cs"), ((0, 9, 20), "cs|swap")]
         bound = 2
     else:
         ticks = (0, 1, 2, 3, 4, 5, 6, 7, 9, 11, 13, 15, 17, 18, 20, 24, 26, 31, 33)
-        plist = [(ticks, "cs"), (ticks, "sc")]
+        plist = [(ticks, "cs"), (ticks, "sc"), ((0, 3, 9, 13, 20, 31), "cs|swap")]
         bound = 2
     st = explore.explore_all("checks.c10", "scenario", plist, bound, time_budget=(1200 if tier == "quick" else 4800))
     if tier == "thorough":
